@@ -4,6 +4,7 @@ import (
 	"bytes"
 	"fmt"
 	"regexp"
+	"strings"
 	"strconv"
 
 	"github.com/wkhere/bcl"
@@ -15,6 +16,9 @@ import (
 )
 
 // C10 — compiled bytecode is well-formed along every path.
+
+// c10MidSrc compiles to about 3000 bytes of code
+var c10MidSrc = strings.Repeat("print 1 + 2 * 3\n", 420)
 
 var xstatRe = regexp.MustCompile(`xstats\.(\w+):\s*(\d+)`)
 
@@ -46,7 +50,7 @@ func c10Exec(cs fw.Case) *fw.Fail {
 		fw.TallyOutcome("excluded-by-property")
 		return nil
 	}
-	dp, prog, _, status := compileDecode(c.Src)
+	dp, prog, dump0, status := compileDecode(c.Src)
 	switch {
 	case status == "rejected":
 		fw.TallyOutcome("rejected")
@@ -57,6 +61,18 @@ func c10Exec(cs fw.Case) *fw.Fail {
 		return nil
 	case status != "":
 		return fw.Failf("dump decodes per the documented layout", "%s", status)
+	}
+	// the compiled program is the Prog's own: compiling other programs afterwards (a small one, one whose
+	// code fills most of a 4 KiB page, and the same source again) leaves it byte-identical
+	others := []string{"print 1", c.Src}
+	if len(dump0) > 1500 {
+		others = append(others, c10MidSrc)
+	}
+	for _, other := range others {
+		impl.Parse(other)
+	}
+	if d1, derr := impl.Dump(prog); derr != nil || !bytes.Equal(d1, dump0) {
+		return fw.Failf("the compiled program is unchanged by later compilations", "dump of %d bytes became %d bytes (err %v), equal prefix %d", len(dump0), len(d1), derr, commonPrefix(d1, dump0))
 	}
 	st, err := bc.Verify(dp)
 	fw.Tally("states", int64(st.States))
@@ -156,7 +172,7 @@ func init() {
 		Rule: "for every accepted program of the core corpus K, the scaled families S (jump distances 65534..65536, operand indices >=241, stack depth 1023..1025, nesting 15..18) and of the C01-C04 enumerations (expression trees of depth <=2, chains, statement sequences): " +
 			"the dump is decoded by the independent decoder and an explicit-state search over the abstract states (pc, operand depth, block depth) follows BOTH successors of every JFALSE. Invariants per state: known opcode, instruction inside the code, operands decode, constant index in range and of the required kind, " +
 			"local slot < depth, jump target on an instruction boundary, depth >= 0 and equal on all paths into a pc, blocks balanced, RET with depth 0, no unreachable instruction, one source position per instruction. " +
-			"Cross-check: the real VM's tosMax/blockTosMax never exceed the verifier's maxima and opsRead equals the reference VM's step count. states/transitions are abstract states/edges summed over programs.",
+			"The Prog is dumped again after further compilations (a small program, the same source, and ~3 kB of code for programs above 1.5 kB) and must be byte-identical. Cross-check: the real VM's tosMax/blockTosMax never exceed the verifier's maxima and opsRead equals the reference VM's step count. states/transitions are abstract states/edges summed over programs.",
 		Subs:           []*fw.Sub{subC10},
 		BudgetQuick:    100,
 		BudgetThorough: 1500,
